@@ -28,9 +28,9 @@ import copy
 # ------------------------------------------------------------------------------------------------
 TABLE_PROFILE = {
     "kinds": ["insert", "ctas", "view", "bare", "insert_cols", "select_into", "update", "update_from", "merge", "merge_derived", "delete", "truncate", "update_self"],
-    "query": ["select", "union", "union3", "with", "with2", "with_recursive"],
+    "query": ["select", "union", "union3", "with", "with2", "with_recursive", "union_paren"],
     "from": ["one", "join", "comma", "join3", "left_using", "cross", "join_comma", "comma_join", "nested_paren", "paren_join_join", "join_paren_join", "full_outer"],
-    "rel": ["base", "base_alias", "qualified", "qualified_alias", "derived", "derived_union", "cte", "cte_alias", "cte_quoted", "base_quoted"],
+    "rel": ["base", "base_alias", "qualified", "qualified_alias", "derived", "derived_union", "cte", "cte_alias", "cte_quoted", "base_quoted", "base_target"],
     "where": ["none", "lit", "in_sub", "exists", "scalar_cmp", "and_two"],
     "items": ["col", "star", "scalar_sub", "case_sub"],
     "tail": ["none", "group", "having_sub"],
@@ -39,8 +39,8 @@ TABLE_PROFILE = {
 }
 
 COLUMN_PROFILE = {
-    "kinds": ["insert", "ctas", "insert_cols", "view", "select_into", "update_from", "merge", "update_self"],
-    "query": ["select", "union", "with", "union3"],
+    "kinds": ["insert", "ctas", "insert_cols", "view", "select_into", "update_from", "merge", "update_self", "merge_two_inserts"],
+    "query": ["select", "union", "with", "union3", "union_paren"],
     "from": ["one", "join", "comma", "left_using", "join3", "join_paren_join", "paren_join_join"],
     "rel": ["base", "base_alias", "qualified_alias", "qualified", "derived", "derived_union", "derived_star", "cte", "cte_alias"],
     "where": ["none"],
@@ -57,7 +57,8 @@ COLUMN_RICH_JOIN = dict(COLUMN_PROFILE, top={"from": ["join"], "rel": ["base_ali
 COLUMN_RICH_DERIVED = dict(COLUMN_PROFILE, top={"from": ["join"], "rel": ["derived"], "nitems": [2], "colref_style": ["qual"]})
 COLUMN_RICH_CTE = dict(COLUMN_PROFILE, top={"query": ["with"], "from": ["join"], "rel": ["cte_alias", "base_alias"], "nitems": [2], "colref_style": ["qual"]})
 COLUMN_RICH_STAR = dict(COLUMN_PROFILE, top={"from": ["join"], "rel": ["derived"], "nitems": [2], "items": ["qstar"], "colref_style": ["qual"]})
-CENTRES = {"simple": COLUMN_PROFILE, "join": COLUMN_RICH_JOIN, "derived": COLUMN_RICH_DERIVED, "cte": COLUMN_RICH_CTE, "star": COLUMN_RICH_STAR}
+COLUMN_RICH_SETOP = dict(COLUMN_PROFILE, top={"query": ["union"], "rel": ["derived"], "colref_style": ["qual"]})
+CENTRES = {"setop": COLUMN_RICH_SETOP, "simple": COLUMN_PROFILE, "join": COLUMN_RICH_JOIN, "derived": COLUMN_RICH_DERIVED, "cte": COLUMN_RICH_CTE, "star": COLUMN_RICH_STAR}
 
 
 class Ctx:
@@ -150,6 +151,8 @@ def gen_rel(ctx: Ctx, depth: int, path: str):
         return True
 
     k = ctx.alts("rel", path, ok)
+    if k == "base_target":  # the statement reads the table it writes (below the top level or next to other tables)
+        return {"k": "base", "t": T("tgt"), "alias": ctx.alias(), "as": False}
     if k == "base_quoted":
         return {"k": "base", "t": T(ctx.base()), "alias": None, "as": False, "quoted": True}
     if k == "base":
@@ -318,7 +321,7 @@ def gen_query(ctx: Ctx, depth: int, path: str, kinds_filter=None):
     k = ctx.alts("query", path, kinds_filter)
     if k == "select":
         return {"ctes": [], "branches": [gen_select(ctx, depth, path + ".b[0]")], "ops": []}
-    if k in ("union", "union3"):
+    if k in ("union", "union3", "union_paren"):
         b = [gen_select(ctx, depth, path + ".b[0]")]
         star = _has_star(b[0])
         if star:
@@ -329,7 +332,7 @@ def gen_query(ctx: Ctx, depth: int, path: str, kinds_filter=None):
             else:
                 b[0]["items"] = [{"e": gen_colref(ctx, f0["rels"], path + ".b[0].destar"), "alias": None}]
                 star = False
-        ops = ["UNION ALL"] if k == "union" else ["UNION", "UNION ALL"]
+        ops = ["UNION ALL"] if k in ("union", "union_paren") else ["UNION", "UNION ALL"]
         for i in range(1, len(ops) + 1):
             if star:
                 nb = {"items": [{"e": ["star", None], "alias": None}],
@@ -337,7 +340,10 @@ def gen_query(ctx: Ctx, depth: int, path: str, kinds_filter=None):
             else:
                 nb = gen_select(ctx, depth, f"{path}.b[{i}]", arity=len(b[0]["items"]), no_star=True)
             b.append(nb)
-        return {"ctes": [], "branches": b, "ops": ops}
+        q = {"ctes": [], "branches": b, "ops": ops}
+        if k == "union_paren":
+            q["paren"] = True  # every branch written in parentheses
+        return q
     if k == "with_recursive":
         anchor = gen_select(ctx, 0, f"{path}.cte[0]", arity=1, no_star=True)
         name = "cte1"
@@ -385,8 +391,8 @@ def gen_statement(ch, profile, depth=2):
             setv = [["k1", ["lit"]]]
         where = gen_pred(ctx, depth, "u.where")
         return {"kind": "update", "target": tgt, "set": setv, "from": frm, "where": where}
-    if kind in ("merge", "merge_derived"):
-        if kind == "merge":
+    if kind in ("merge", "merge_derived", "merge_two_inserts"):
+        if kind in ("merge", "merge_two_inserts"):
             using = {"k": "base", "t": T(ctx.base()), "alias": ctx.alias(), "as": False}
             names = None
         else:
@@ -394,7 +400,10 @@ def gen_statement(ch, profile, depth=2):
             using = {"k": "derived", "q": q, "alias": ctx.alias()}
             names = [n for n in (out_names(q, ctx.ctes) or []) if n]
         c1 = names[0] if names else "c1"
-        return {"kind": "merge", "target": tgt, "talias": "tg", "using": using, "key": "id", "update": [["k1", c1]], "insert": [["k1"], [c1]]}
+        st = {"kind": "merge", "target": tgt, "talias": "tg", "using": using, "key": "id", "update": [["k1", c1]], "insert": [["k1"], [c1]]}
+        if kind == "merge_two_inserts":  # two WHEN NOT MATCHED arms with different column lists
+            st["insert2"] = [["k2", "k3"], ["c2", "c3"]]
+        return st
     if kind == "delete":
         return {"kind": "delete", "target": None, "table": T(ctx.base()), "where": gen_pred(ctx, depth, "d.where")}
     if kind == "truncate":
@@ -570,10 +579,11 @@ def r_query(q, o: R, into=None):
     if q["ctes"]:
         rec = "RECURSIVE " if any(c.get("recursive") for c in q["ctes"]) and o.dialect not in ("tsql", "oracle") else ""
         sql = "WITH " + rec + ", ".join(f"{o.local(c['name'])} AS ({r_query(c['q'], o)})" for c in q["ctes"]) + " "
-    parts = [r_select(q["branches"][0], o, into)]
+    wrap = (lambda t: f"({t})") if q.get("paren") else (lambda t: t)
+    parts = [wrap(r_select(q["branches"][0], o, into))]
     for op, b in zip(q["ops"], q["branches"][1:]):
         parts.append(op)
-        parts.append(r_select(b, o))
+        parts.append(wrap(r_select(b, o)))
     return sql + " ".join(parts)
 
 
@@ -607,11 +617,16 @@ def render(st, o: R | None = None) -> str:
         src = r_rel(u, o)
         up = ", ".join(f"{ta}.{c} = {ua}.{s}" for c, s in st["update"])
         ic, iv = st["insert"]
-        return (
+        first_cond = f" AND {ua}.flag = 1" if st.get("insert2") else ""
+        sql = (
             f"MERGE INTO {tgt} {ta} USING {src} ON {ta}.{st['key']} = {ua}.{st['key']} "
             f"WHEN MATCHED THEN UPDATE SET {up} "
-            f"WHEN NOT MATCHED THEN INSERT ({', '.join(ic)}) VALUES ({', '.join(ua + '.' + v for v in iv)})"
+            f"WHEN NOT MATCHED{first_cond} THEN INSERT ({', '.join(ic)}) VALUES ({', '.join(ua + '.' + v for v in iv)})"
         )
+        if st.get("insert2"):
+            ic2, iv2 = st["insert2"]
+            sql += f" WHEN NOT MATCHED THEN INSERT ({', '.join(ic2)}) VALUES ({', '.join(ua + '.' + v for v in iv2)})"
+        return sql
     if k == "delete":
         sql = f"DELETE FROM {o.table(st['table'])}"
         if st["where"]:
